@@ -85,6 +85,10 @@ func main() {
 	}
 	root := os.Getenv("VERIF_ROOT")
 	build := os.Getenv("VERIF_BUILD")
+	outRoot := root // evidence/ and replays/ live here; mutant runs (dev helper) redirect them
+	if o := os.Getenv("VERIF_OUT_ROOT"); o != "" {
+		outRoot = o
+	}
 	seed, _ := strconv.ParseInt(os.Getenv("VERIF_SEED"), 10, 64)
 	start := time.Now()
 
@@ -281,7 +285,7 @@ func main() {
 		sigs = append(sigs, s)
 	}
 	sort.Strings(sigs)
-	os.MkdirAll(filepath.Join(root, "replays"), 0o755)
+	os.MkdirAll(filepath.Join(outRoot, "replays"), 0o755)
 	newViol := 0
 	var knownSeen []string
 	var lines []string
@@ -293,7 +297,7 @@ func main() {
 		}
 		newViol++
 		ex := tot.ViolEx[s]
-		path := filepath.Join(root, "replays", fmt.Sprintf("%s-%s.json", id, sanitize(s)))
+		path := filepath.Join(outRoot, "replays", fmt.Sprintf("%s-%s.json", id, sanitize(s)))
 		var e Example
 		if len(ex) > 0 {
 			e = ex[0]
@@ -338,8 +342,8 @@ func main() {
 		"violations":  newViol,
 	}
 	eb, _ := json.MarshalIndent(ev, "", " ")
-	os.MkdirAll(filepath.Join(root, "evidence"), 0o755)
-	if err := os.WriteFile(filepath.Join(root, "evidence", id+".json"), append(eb, '\n'), 0o644); err != nil {
+	os.MkdirAll(filepath.Join(outRoot, "evidence"), 0o755)
+	if err := os.WriteFile(filepath.Join(outRoot, "evidence", id+".json"), append(eb, '\n'), 0o644); err != nil {
 		os.RemoveAll(scratch)
 		die(3, "%v", err)
 	}
